@@ -331,5 +331,11 @@ def run(ctx):
         for inst, v in sorted(f_(db, rep, prog).items()):
             r4.check(v[0], inst, v[1], v[2], v[3])
     r4.expect_min(4)
+    r5 = rep.rule('C06.5-reply-framing-and-critical-window', 'R-TRANSDUCER', 'smtpcode() ends a reply exactly at the LF of its last line, however long the reply (a reply cut short or overrun makes every later answer belong to the wrong command - the body would follow a refused DATA); dropped() warns of a possible duplicate exactly when the connection is lost after the final dot went out (decided by C09.4\'s explorations)')
+    for inst_, v_ in sorted(_c09.reply_framing_sites(db, rep).items()):
+        r5.check(v_[0], inst_, v_[1], v_[2], v_[3])
+    for inst_, v_ in sorted(_c09.dropped_sites(db, rep).items()):
+        r5.check(v_[0], inst_, v_[1], v_[2], v_[3])
+    r5.expect_min(3)
     rep.assume('substdio_put(&smtpto,...) sends bytes in order',
                'receiver model: RFC 5321 section 4.5.2 (CRLF line ends, leading dot removed, CRLF.CRLF ends the data)')
